@@ -98,8 +98,8 @@ def main():
         sys.exit(code)
 
     def report_violation(doc, found):
-        os.makedirs(os.path.join(VERIF, 'replays'), exist_ok=True)
-        path = os.path.join(VERIF, 'replays', '%s-%d-%d.json' % (prop, seed, len(violations)))
+        os.makedirs(os.path.join(lib.OUT_DIR, 'replays'), exist_ok=True)
+        path = os.path.join(lib.OUT_DIR, 'replays', '%s-%d-%d.json' % (prop, seed, len(violations)))
         doc = dict(doc, property=prop, seed=seed, tier=tier, repo=REPO)
         json.dump(doc, open(path, 'w'), indent=1)
         violations.append(path)
